@@ -81,6 +81,11 @@ func (this *OneDimensionalCodeWriter) Encode(
 		}
 	}
 
+	if sidesMargin < 0 {
+		return nil, gozxing.NewWriterException(
+			"IllegalArgumentException: EncodeHintType_MARGIN can't be negative: %v", sidesMargin)
+	}
+
 	code, e := this.encodeWithHints(contents, hints)
 	if e != nil {
 		return nil, e
